@@ -7,6 +7,7 @@ import DL.Model.CFJson
 import DL.Model.CFRules
 import DL.Model.RegexJson
 import DL.Model.ScopeJson
+import DL.Model.Scope2Json
 import DL.Model.FixBuild
 import DL.Model.Txt
 
@@ -182,6 +183,7 @@ def dispatch (j : Json) : Except String Json := do
   | "cf" => runCf j
   | "rx" => DL.Rx.runRx j
   | "scope" => DL.Scope.runScope j
+  | "scope2" => DL.Scope2.runScope2 j
   | "txt" => do
     let t ← getStr j "t"
     pure (Json.mkObj [("hits", Json.arr ((DL.Txt.preferAscii t.toList).map (fun h => Json.arr #[(h.start : Json), (h.stop : Json)])).toArray)])
